@@ -22,13 +22,30 @@ var hostileTexts = [][]byte{
 
 // c09ProcProgram: a terminating transform or predicate applied to arbitrary match text.
 func c09ProcProgram(rng *gen.Rng, i int) string {
+	transform := (i/4)%2 == 0 // i is always 3 mod 4 here
 	pg := newProcGen(rng)
-	ss := pg.withInits(pg.stmtList(2, 1+rng.Intn(3), i%2 == 0, false, true))
+	ss := pg.withInits(pg.stmtList(2, 1+rng.Intn(3), transform, false, true))
+	if transform && rng.Chance(1, 2) {
+		// matchNumber: the checker knows it as an (undeclared) string, the evaluator binds a number; every
+		// operation the checker lets through on it must still be total
+		mn := proc.EVar{Name: "matchNumber"}
+		uses := []proc.Expr{
+			proc.EUn{Op: "head", X: mn}, proc.EUn{Op: "tail", X: mn}, proc.EBin{Op: "+", L: mn, R: proc.EStr{V: "a"}},
+			proc.EBin{Op: "-", L: mn, R: proc.ENum{V: 1}}, proc.EBin{Op: "%", L: mn, R: proc.ENum{V: 2}},
+			proc.EUn{Op: "tail", X: proc.EBin{Op: "+", L: mn, R: proc.ENum{V: 9}}}, proc.EBin{Op: "+", L: proc.EStr{V: "#"}, R: mn},
+		}
+		e := uses[rng.Intn(len(uses))]
+		if rng.Bool() {
+			ss = append([]proc.Stmt{proc.SSet{Name: "mn1", X: e}, proc.SDebug{X: proc.EVar{Name: "mn1"}}}, ss...)
+		} else {
+			ss = append([]proc.Stmt{proc.SIf{Cond: proc.EBin{Op: "<", L: mn, R: proc.ENum{V: 2}}, Then: []proc.Stmt{proc.SReturn{X: e}}}}, ss...)
+		}
+	}
 	// arithmetic on the match text itself: numeric, non-numeric and empty captures all occur
 	if rng.Chance(1, 3) {
 		ops := []string{"/", "%", "*", "-"}
 		e := proc.EBin{Op: ops[rng.Intn(4)], L: proc.ENum{V: 10}, R: proc.EVar{Name: []string{"match", "cap", "matchLength"}[rng.Intn(3)]}}
-		if i%2 == 0 {
+		if transform {
 			ss = append(ss, proc.SReturn{X: e})
 		} else {
 			ss = append(ss, proc.SReturn{X: proc.EBin{Op: ">=", L: e, R: proc.ENum{V: 0}}})
@@ -37,7 +54,7 @@ func c09ProcProgram(rng *gen.Rng, i int) string {
 	body := proc.RenderStmts(ss, rng.Bool())
 	pats := []string{"at least 1 digit", "(maybe digit) = cap letter", "any", "at least 0 'a' 'b'", "whole word", "(at most 2 digit) = cap ','"}
 	pat := pats[rng.Intn(len(pats))]
-	if i%2 == 0 {
+	if transform {
 		return "set f to transform " + body + " end\nreplace all " + pat + " with f '|' value"
 	}
 	return "set p to pattern " + pat + " begin " + body + " end\nfind all p"
@@ -132,7 +149,7 @@ func C09(r *drv.Run) {
 			generated = true
 		}
 		c := wire.Case{Op: "run", Src: []byte(src), Texts: texts, StepBudget: 400000}
-		if i%10 == 0 {
+		if i%7 == 0 {
 			c = wire.Case{Op: "runfiles", Src: []byte(src), Files: tinyPaths, Mode: "NOTHING", StepBudget: 400000}
 		}
 		return &drv.Item{Case: c, Check: func(res *wire.Result) {
